@@ -93,12 +93,20 @@ func TestVerifC04API(t *testing.T) {
 	if pb := os.Getenv("VERIF_PORTBASE"); pb != "" {
 		fmt.Sscan(pb, &port)
 	}
+	basePort := port
+	for ti, trusted := range []bool{false, true} {
+		// the same server twice: without trusted proxies, and with 127.0.0.1 as its only trusted proxy
+		port := basePort + ti
+		var tp conf.IPNetworks
+		if trusted {
+			json.Unmarshal([]byte(`["127.0.0.1/32"]`), &tp) //nolint:errcheck
+		}
 	dir := t.TempDir()
 	cf := c07Load(t, dir, "paths:\n  cam1:\n    record: no\n")
 	parent := &c04Parent{conf: cf}
 	sv := &c04Servers{}
 	am := &auth.Manager{Method: conf.AuthMethodInternal}
-	a := API{Address: fmt.Sprintf("127.0.0.1:%d", port), ReadTimeout: conf.Duration(10 * time.Second), WriteTimeout: conf.Duration(10 * time.Second),
+	a := API{Address: fmt.Sprintf("127.0.0.1:%d", port), TrustedProxies: tp, ReadTimeout: conf.Duration(10 * time.Second), WriteTimeout: conf.Duration(10 * time.Second),
 		AuthManager: am, PathManager: sv, RTSPServer: c04RTSP{sv}, RTSPSServer: c04RTSP{sv}, RTMPServer: c04RTMP{sv}, RTMPSServer: c04RTMP{sv},
 		HLSServer: c04HLS{sv}, WebRTCServer: c04WebRTC{sv}, SRTServer: c04SRT{sv}, MoQServer: c04MoQ{sv}, Parent: parent}
 	// interfaceIsEmpty() wants pointers
@@ -107,7 +115,6 @@ func TestVerifC04API(t *testing.T) {
 	if err := a.Initialize(); err != nil {
 		t.Fatal(err)
 	}
-	defer a.Close()
 	var routes []vmon.AdminRoute
 	for _, ri := range a.httpServer.Handler.(*gin.Engine).Routes() {
 		p := ri.Path
@@ -123,7 +130,7 @@ func TestVerifC04API(t *testing.T) {
 		}
 	}
 	r.Count("api_routes_from_live_router", int64(len(routes)))
-	vmon.AdminAuthMonitor(r, vmon.AdminCfg{Name: "api", Routes: routes, Batches: r.N(4, 300),
+	vmon.AdminAuthMonitor(r, vmon.AdminCfg{TrustedProxy: trusted, Name: "api", Routes: routes, Batches: r.N(2, 150),
 		SetUsers: func(uj string) error {
 			var users []conf.AuthInternalUser
 			if err := json.Unmarshal([]byte(uj), &users); err != nil {
@@ -133,5 +140,7 @@ func TestVerifC04API(t *testing.T) {
 			return nil
 		},
 		State: func() string { return fmt.Sprintf("mutations=%d kicks=%d", parent.mutations.Load(), sv.kicks.Load()) }})
+		a.Close()
+	}
 	r.Finish(vmon.AdminRule, "API part: routes are read from the live gin engine; servers and parent are stubs that count mutations and kicks")
 }
